@@ -222,7 +222,7 @@ func genModule(dir string, r *rng.R, n int, mk func(i int) gen.Options) []genSpe
 }
 
 // binTimeout bounds one run of the tool over a generated module (normal runs take seconds)
-var binTimeout = 5 * time.Minute
+var binTimeout = 12 * time.Minute
 
 func crashed(r binRun) string {
 	if i := strings.Index(r.stderr, "TIMEOUT:"); i >= 0 {
@@ -252,7 +252,7 @@ func corrBin(o corrOpts) *res.Summary {
 		return sum
 	}
 	r := rng.New(o.seed ^ 0xB1A)
-	binTimeout = 2 * time.Minute
+	binTimeout = 5 * time.Minute
 	if o.tier == "thorough" {
 		binTimeout = 15 * time.Minute
 	}
